@@ -278,6 +278,24 @@ def expected_accessors(d):
     return out
 
 
+def builder_sound(d):
+    """the set-level condition of C14, from the declaration alone: no position writable twice, and a default or full coverage"""
+    N = render.base_width(d)
+    counts = collections.Counter()
+    for f in d["fields"]:
+        if "w" not in f["access"] or f.get("spec") is None:
+            continue
+        K = f["count"] or 1
+        stride = f["spec"]["stride"]
+        if stride is None:
+            stride = sum(hi - lo + 1 for lo, hi in f["spec"]["ranges"])
+        for i in range(K):
+            for lo, hi in f["spec"]["ranges"]:
+                for p in range(lo + i * stride, hi + i * stride + 1):
+                    counts[p] += 1
+    return all(v <= 1 for v in counts.values()) and (d["default"] is not None or all(counts.get(p, 0) >= 1 for p in range(N)))
+
+
 def decided_by_evaluation(res, table, name, what):
     """True when the operations executed for declaration `name` cover the whole input space of the items `what` describes:
     `consts` – ZERO / DEFAULT / Default::default() / new() have no inputs; `enum` – both conversions of an enum of at most
@@ -643,6 +661,14 @@ def evaluate(prop, res):
                         {"declaration": name, "extra": sorted(real_acc - want), "missing": sorted(want - real_acc), "source": src})
                 rk = collections.Counter((k, n) for (k, n, p, c, dd) in real_n)
                 mk = collections.Counter((k, n) for (k, n, p, c, dd) in mdl_n)
+                # "w gets with_/set_ (and a builder step)": where the declaration is sound and complete (the set-level condition
+                # of C14, from the declaration alone) every writable field has its `with_` twice – on the struct and as a step
+                if d.get("wellformed", True) and all(f.get("spec") is not None for f in d["fields"]) and builder_sound(d) and real_acc == want:
+                    nosteps = sorted(f["name"] for f in d["fields"] if "w" in f["access"] and rk.get(("fn", "with_" + render.ident_noraw(f["name"])), 0) < 2)
+                    if nosteps:
+                        src, _ = decl_source(table, d)
+                        add("violation", "a writable field has no builder step although the declaration offers a builder by the rule",
+                            {"declaration": name, "fields_without_step": nosteps, "source": src})
                 if msurf and rk != mk and real_acc == want:
                     add("correspondence", "item set of the expansion differs from the model", {"declaration": name, "only_real": sorted((rk - mk).keys()), "only_model": sorted((mk - rk).keys())})
             if prop == "C15":
